@@ -91,6 +91,24 @@ def run_one(part, case, stats, use_target=False):
     return out
 
 
+def load_corpus(prop_id, part_name):
+    """Saved cases (shrunk failures of past findings, reverted fixes and seeded changes) under corpus/<ID>/*.json in
+    replay-file format; they run first, in shard 0, through the same oracle as generated cases."""
+    out = []
+    d = os.path.join(VERIF_ROOT, "corpus", prop_id)
+    if os.path.isdir(d):
+        for f in sorted(os.listdir(d)):
+            if not f.endswith(".json"):
+                continue
+            try:
+                body = json.load(open(os.path.join(d, f)))
+            except ValueError:
+                continue
+            if isinstance(body, dict) and body.get("part") == part_name and "case" in body:
+                out.append(body["case"])
+    return out
+
+
 def run_job(job):
     """Executed in a worker process."""
     prop_id, part_idx, shard, n, seed, tier = job
@@ -124,7 +142,7 @@ def run_job(job):
         )
         try:
             if shard == 0:
-                for case in part.corpus:
+                for case in list(part.corpus) + load_corpus(prop_id, part.name):
                     run_one(part, case, stats)
             if part.machine is not None:
                 from hypothesis.stateful import run_state_machine_as_test
